@@ -370,6 +370,12 @@ def run_case(case):
     sinkA = Sink(rec, True)
 
     def on_edge(e):
+        if getattr(e, "rejected", None):
+            oc = str(e.rejected.get("outcome"))
+            if oc.startswith("raised") and "+" not in oc:
+                rec.hit("edges_on_a_module_that_rejected_a_call_before")
+            else:
+                rec.hit("rejected_call_accepted_or_changed_state(info)")
         judge(rec, e, True, tally)
 
     def on_edge_b(e):
